@@ -115,7 +115,9 @@ impl Cookie {
     pub fn for_namespace(namespace: Namespace) -> Self {
         Self {
             id: rand::random::<u64>(),
-            namespace: Some(namespace),
+            // The wire encoding cannot tell an empty namespace from "all namespaces"; use the
+            // representation that survives the round trip.
+            namespace: Some(namespace).filter(|ns| !ns.0.is_empty()),
         }
     }
 
